@@ -22,6 +22,10 @@ pub const CERTS: &[(&str, bool, bool, bool, bool)] = &[
     // valid for exactly one of the two names by which the peer is contacted
     ("localhostonly", true, false, true, false),
     ("iponly", true, false, false, true),
+    // self-signed with CA:TRUE (what `openssl req -x509` makes by default): unrelated to the fixture root
+    ("selfsigned_ca", false, false, true, true),
+    // the `good` chain presented by a peer that holds another private key: no waiver makes that peer the certificate's owner
+    ("impostor", true, false, true, true),
 ];
 
 #[derive(Debug, Clone, Serialize, Deserialize, PartialEq, Eq, Hash)]
@@ -155,9 +159,9 @@ fn apply_builder(mut b: attohttpc::RequestBuilder, c: &Case) -> attohttpc::Reque
 impl Property for C14 {
     type Case = Case;
     const ID: &'static str = "C14";
-    const RULE: &'static str = "configuration matrix {chains to the added root, wrong name, self-signed, unknown issuer, expired, each with matching / differing name, valid for only one of the two names of the peer} x accept_invalid_certs x accept_invalid_hostnames x root added {no, the CA, the presented certificate itself} x \
+    const RULE: &'static str = "configuration matrix {chains to the added root, wrong name, self-signed, unknown issuer, expired, each with matching / differing name, valid for only one of the two names of the peer, self-signed CA:TRUE, the good chain served without its key} x accept_invalid_certs x accept_invalid_hostnames x root added {no, the CA, the presented certificate itself} x \
 route {direct https, inside a CONNECT tunnel through a plain proxy, https proxy presenting the certificate for an http origin and for a tunnelled https origin} x where the flags/root were set {session, this request, sibling request created before / after, session after the request was created} x \
-contacted host {localhost, 127.0.0.1}: 4800 cells per TLS backend (3600 of the product, 800 for an https proxy that carries a CONNECT tunnel, 400 with a waiver given and then withdrawn on the request), each a real TLS handshake against a rustls server on a loopback socket; both tiers run all cells of both backends. Oracle = the truth table, both directions. \
+contacted host {localhost, 127.0.0.1}: 5760 cells per TLS backend (the product of 12 certificates, 800 for an https proxy that carries a CONNECT tunnel, 400 with a waiver given and then withdrawn on the request), each a real TLS handshake against a rustls server on a loopback socket; both tiers run all cells of both backends. Oracle = the truth table, both directions. \
 non-trivial = at least one danger flag, an added root or a non-valid certificate; distinct by cell";
 
     fn assumptions() -> Vec<String> {
@@ -288,10 +292,11 @@ non-trivial = at least one danger flag, an added root or a non-valid certificate
 
         let (ic, ih, root) = if effective { (case.invalid_certs && case.withdraw & 1 == 0, case.invalid_hostnames && case.withdraw & 2 == 0, case.add_root) } else { (false, false, false) };
         let pinned = root && case.pin_leaf;
-        let want_ok = ic || ((chains && !expired && root && !pinned) && (name_ok || ih));
+        let impostor = fixture == "impostor";
+        let want_ok = !impostor && (ic || ((chains && !expired && root && !pinned) && (name_ok || ih)));
         // a pinned leaf (the presented certificate itself added as a root): whether that makes the chain trusted differs
         // between TLS libraries and is accepted either way - but never for an expired certificate or a wrong name
-        let pinned_may_succeed = pinned && !ic && !expired && (name_ok || ih);
+        let pinned_may_succeed = pinned && !ic && !expired && (name_ok || ih) && !impostor;
         let route = ["direct", "tunnel", "https-proxy", "https-proxy-tunnel"][case.route as usize % 4];
         let place = ["session", "request", "sibling-before", "sibling-after", "session-after"][case.place as usize % 5];
         let describe = format!(
@@ -314,6 +319,7 @@ non-trivial = at least one danger flag, an added root or a non-valid certificate
         ctx.label_if(want_ok, "must-succeed");
         ctx.label_if(!want_ok, "must-fail");
         ctx.label_if(pinned, "pinned-leaf-as-root");
+        ctx.label_if(impostor, "peer-without-the-certificate's-key");
         if pinned_may_succeed {
             ctx.label("ambiguous-accepted:pinned-leaf");
             if outcome.is_err() && seen.request_head.is_some() {
